@@ -1,27 +1,21 @@
-use grin_chain::types::Options;
 use grin_core::core::hash::Hashed;
+use grin_core::core::transaction::Weighting;
 use vcommon::forktree::*;
 use vcommon::world::*;
-use vcommon::Scratch;
 fn main() {
 	init_globals(true);
-	let sc = Scratch::new("probe2");
-	let mut cfg = TreeCfg::small(); cfg.n_invalid = 0; cfg.trunk = 8; cfg.branches = 0; cfg.max_depth = 1;
-	let mut h = gen_history(7, &cfg);
-	let chain = open_chain(&sc.sub("c"), &h.genesis).unwrap();
-	for b in &h.blocks { chain.process_block(b.block.clone(), Options::SKIP_POW).unwrap(); }
-	let tip = h.blocks.last().unwrap().hash;
-	let honest = h.honest_block(&tip, 1000).block;
-	let mut t = honest.clone();
-	let mut v = t.header.output_root.to_vec(); v[3] ^= 1; t.header.output_root = grin_core::core::hash::Hash::from_vec(&v);
-	println!("tampered: {:?}", chain.process_block(t.clone(), Options::SKIP_POW).map(|x| x.map(|t| t.height)));
-	println!("head {} header_head {}", chain.head().unwrap().last_block_h, chain.header_head().unwrap().last_block_h);
-	println!("validate(true) before honest: {:?}", chain.validate(true));
-	println!("honest: {:?}", chain.process_block(honest.clone(), Options::SKIP_POW).map(|x| x.map(|t| t.height)));
-	println!("head {} header_head {} honest {} tampered {}", chain.head().unwrap().last_block_h, chain.header_head().unwrap().last_block_h, honest.hash(), t.hash());
-	println!("validate(true): {:?}", chain.validate(true));
-	println!("validate(false): {:?}", chain.validate(false));
-	let next = h.honest_block(&honest.hash(), 0).block;
-	println!("next: {:?}", chain.process_block(next, Options::SKIP_POW).map(|x| x.map(|t| t.height)));
-	println!("validate(true): {:?}", chain.validate(true));
+	let cfg = TreeCfg { trunk: 5, branches: 3, max_depth: 8, tx_per_mille: 600, real_pow: false, n_invalid: 3, fork_window: None };
+	let h = gen_history(15212756160514294320, &cfg);
+	for b in &h.blocks {
+		if b.hash.to_string().starts_with("9eef68a17ce3") {
+			println!("block h={} tags={:?} verdict={:?}", b.block.header.height, b.tags, b.verdict);
+			println!("inputs {} outputs {} kernels {}", b.block.inputs().len(), b.block.outputs().len(), b.block.kernels().len());
+			let prev = h.ledger.header(&b.parent);
+			println!("validate: {:?}", b.block.validate(&prev.total_kernel_offset));
+			for o in b.block.outputs() { println!(" out {:?} {:?}", o.features(), o.commitment()); }
+			let ins: Vec<grin_core::core::transaction::CommitWrapper> = (&b.block.inputs()).into();
+			for i in ins { println!(" in {:?}", i.commitment()); }
+			for k in b.block.kernels() { println!(" kern {:?} {:?}", k.features, k.excess); }
+		}
+	}
 }
